@@ -105,6 +105,10 @@ func c14Wiring(c *Ctx, p *Prog) {
 			if mc, ok := call.Call.Value.(*ssa.MakeClosure); ok && parses(mc.Fn.(*ssa.Function)) {
 				isParse = true
 			}
+			// or a function/method of the command that wraps the parser
+			if sc := call.Call.StaticCallee(); sc != nil && sc.Pkg == fn.Pkg && sc.Blocks != nil && parses(sc) {
+				isParse = true
+			}
 			if !isParse {
 				return
 			}
@@ -130,6 +134,35 @@ func c14Wiring(c *Ctx, p *Prog) {
 					same = false
 				}
 			}
+		})
+		// wrapper form: the wrapper parses with a field of its receiver, and the residue is taken from that field of the
+		// very object the wrapper was called on
+		eachInstr(fn, func(_ *ssa.BasicBlock, in ssa.Instruction) {
+			call, ok := in.(*ssa.Call)
+			if !ok {
+				return
+			}
+			sc := call.Call.StaticCallee()
+			if sc == nil || sc.Parent() != nil || sc.Pkg != fn.Pkg || sc.Blocks == nil || !parses(sc) || len(call.Call.Args) == 0 {
+				return
+			}
+			fa, ok := recv.(*ssa.FieldAddr)
+			if !ok || fa.X != call.Call.Args[0] {
+				same = false
+				return
+			}
+			fld, _ := fieldOfAddr(fa)
+			eachInstr(sc, func(_ *ssa.BasicBlock, in2 ssa.Instruction) {
+				if c2, ok := in2.(*ssa.Call); ok {
+					co := calleeObj(&c2.Call)
+					if objIs(co, bprocPkg, "ProjectionParser", "Parse") || objIs(co, bprocPkg, "ProjectionParser", "ParseWithUnit") {
+						f2, base := fieldOfAddr(c2.Call.Args[0])
+						if f2 != fld || base != ssa.Value(sc.Params[0]) {
+							same = false
+						}
+					}
+				}
+			})
 		})
 		c.Check(same, R, "one-parser", p.pos(residue.Pos()), "the flags and the residue share one ProjectionParser", "the residue is taken from a different parser than the one that parsed the flags")
 	}
